@@ -192,6 +192,10 @@ func TestC02Edits(t *testing.T) {
 		stream.Close()
 		rdEnd := &mitm.End{In: stream, Out: mitm.NewStream()}
 		delivered, prefixOK, errored, afterErr := 0, 1, 0, 0
+		// what the reader returned is kept as returned (not copied) and
+		// looked at again when the stream has ended: a record handed out as
+		// valid must stay what the peer wrote, whatever is read afterwards
+		var kept [][]byte
 		for i := 0; i < K+8; i++ {
 			got, err := reader.ReadMessage(rdEnd)
 			if err != nil {
@@ -201,6 +205,7 @@ func TestC02Edits(t *testing.T) {
 			if delivered >= len(msgs) || !bytes.Equal(got, msgs[delivered]) {
 				prefixOK = 0
 			}
+			kept = append(kept, got)
 			delivered++
 		}
 		// a reader that reads on after the error must not be handed
@@ -213,7 +218,13 @@ func TestC02Edits(t *testing.T) {
 				}
 			}
 		}
-		enc.Encode(map[string]any{"op": "script", "n": sn, "dir": d, "nmsgs": K, "edits": es,
+		keptOK := 1
+		for i, k := range kept {
+			if i >= len(msgs) || !bytes.Equal(k, msgs[i]) {
+				keptOK = 0
+			}
+		}
+		enc.Encode(map[string]any{"op": "script", "n": sn, "dir": d, "nmsgs": K, "edits": es, "keptOK": keptOK,
 			"delivered": delivered, "prefixOK": prefixOK, "errored": errored, "afterErr": afterErr,
 			"kk": b2i(kk), "sizes": sizes})
 	}
